@@ -341,6 +341,13 @@ var promptShapes = []string{
 	`[1].forEach(function(){ for(;;); })`, `"a".replace(/a/, function(){ while(1); })`, `({get g(){ for(;;); }}).g`, `eval("for(;;);")`, `with({}) for(;;);`,
 	`switch(1){ case 1: for(;;); }`, `try { for(;;); } finally {}`, `function f(){ for(;;); } f()`, `var i = 0; for(;;) i++`, `for(;;) { try { continue } finally { } }`,
 	`JSON.parse('[1]', function(){ for(;;){} })`, `[2,1].sort(function(){ while(true){} })`, `(function f(){ for(;;) if (false) break })()`,
+	// the loop runs inside a conversion that a built-in performs through Go's fmt (console.log arguments, the text of a
+	// TypeError): fmt recovers panics of String methods, so the halt must not be raised under it
+	`console.log({toString: function(){ for(;;){} }}); for(;;){}`,
+	`try { [1].forEach({toString: function(){ for(;;){} }}) } catch (e) {} for(;;){}`,
+	`try { Function.prototype.call.call({toString: function(){ for(;;){} }}) } catch (e) {} for(;;){}`,
+	// no node is evaluated: built-ins calling built-ins (2^40 native calls at depth 41)
+	`var a = [1, 1], c = Boolean; for (var i = 0; i < 40; i++) c = Array.prototype.every.bind(a, c); c()`,
 }
 
 // checkPrompt: an armed interrupt is delivered in every loop shape.
